@@ -212,6 +212,163 @@ theorem C12_holds (r : Row) (hr : r ∈ table) : RowOk r = true := by
   simp [TableOk, List.all_eq_true] at this
   exact this r hr
 
+/-! ### The selecting wrapper, at the level of the wrapper -/
+
+/-- `select_error_kinds` at the level of the WRAPPER `Select(r, allow)`, i.e. of
+`call (selectPolicy allow)`: the guards of a method are evaluated in source order
+(`gs = pre ++ g :: post`); if `allow` admits the repositories of all guards before
+`g` and refuses the repository of `g`, the call is answered by a rejection with an
+EMPTY log of calls on the wrapped registry, and the error is DENIED when `g` asks
+for write access and NAME_UNKNOWN when it asks for read, delete or list access.
+The one exception the policy makes is spelled out as a hypothesis: listing the
+pseudo-name "*" is never refused, so for a list guard (`Tags`, `Referrers`) the
+argument must not be "*". -/
+theorem select_wrapper_error_kinds (r : Row) (h : RowOk r = true) (hm : r.method ≠ "Repositories")
+    (allow : Bytes → Bool) (backend : Call → ρ) (env : Env)
+    (ips : List String) (hips : ifaceParamNames r.method = some ips)
+    (gs : List RGuard) (hgs : specGuards r.method ips r.params = some gs)
+    (pre post : List RGuard) (g : RGuard) (hsplit : gs = pre ++ g :: post)
+    (hpre : ∀ g' ∈ pre, allow (g'.val env) = true)
+    (hg : allow (g.val env) = false)
+    (hstar : g.kind = .list → g.val env ≠ strBytes "*") :
+    call (selectPolicy allow) backend env r =
+      ⟨.rejected (if g.kind = .write then "DENIED" else "NAME_UNKNOWN"), []⟩ := by
+  obtain ⟨hk, _, _, ⟨gs', hres, hspec⟩, hsh⟩ := rowOk_unfold r h ips hips
+  have : gs' = gs := by rw [hgs] at hspec; exact (Option.some.inj hspec).symm
+  subst this
+  simp only [hm, if_false] at hsh
+  have hstar' : ¬ (g.kind = .list ∧ g.val env = [42]) := fun ⟨h1, h2⟩ => hstar h1 (by rw [h2]; decide)
+  have hff : firstFail (selectPolicy allow) env gs' =
+      some (if g.kind = .write then "DENIED" else "NAME_UNKNOWN") := by
+    rw [hsplit, firstFail_append_of_pass _ _ _ _ (fun g' hg' => by
+      rw [select_error_kinds, hpre g' hg']; rfl)]
+    simp only [firstFail]
+    rw [select_error_kinds, hg]
+    by_cases hw : g.kind = .write
+    · simp [hw]
+    · simp [hw, hstar']
+  simp [call, hk, hsh, hres, hff]
+
+/-- The single-repository methods of the regenerated table (all but `MountBlob`
+and `Repositories`): the only check is on `repo`, with the kind of the method's
+interface group. -/
+theorem generated_single_guard : ∀ r ∈ table, r.method ≠ "Repositories" → r.method ≠ "MountBlob" →
+    ∃ k ips, groupKind r.method = some k ∧ ifaceParamNames r.method = some ips ∧
+      specGuards r.method ips r.params = some [⟨"repo", false, k⟩] := by
+  have hdec : ∀ r ∈ table, r.method ≠ "Repositories" → r.method ≠ "MountBlob" →
+      (groupKind r.method).isSome = true ∧ (ifaceParamNames r.method).isSome = true ∧
+      specGuards r.method ((ifaceParamNames r.method).getD []) r.params =
+        some [⟨"repo", false, (groupKind r.method).getD .read⟩] := by decide
+  intro r hr h1 h2
+  obtain ⟨a, b, c⟩ := hdec r hr h1 h2
+  cases hk : groupKind r.method with
+  | none => simp [hk] at a
+  | some k =>
+    cases hi : ifaceParamNames r.method with
+    | none => simp [hi] at b
+    | some ips => exact ⟨k, ips, rfl, rfl, by simpa [hk, hi] using c⟩
+
+/-- `Select(r, allow)` on the 16 single-repository methods of the current source: a
+refused `repo` is answered, without any call on the wrapped registry, by DENIED
+for the Writer methods and NAME_UNKNOWN for the Reader, Deleter and Lister methods
+(`Tags`, `Referrers` of a repository not named "*"). -/
+theorem select_wrapper_single (r : Row) (hr : r ∈ table)
+    (hm : r.method ≠ "Repositories") (hmb : r.method ≠ "MountBlob")
+    (allow : Bytes → Bool) (backend : Call → ρ) (env : Env)
+    (hg : allow (env "repo") = false)
+    (hstar : groupKind r.method = some .list → env "repo" ≠ strBytes "*") :
+    call (selectPolicy allow) backend env r =
+      ⟨.rejected (if groupKind r.method = some .write then "DENIED" else "NAME_UNKNOWN"), []⟩ := by
+  obtain ⟨k, ips, hgk, hips, hgs⟩ := generated_single_guard r hr hm hmb
+  have hok : RowOk r = true := C12_holds r hr
+  have := select_wrapper_error_kinds r hok hm allow backend env ips hips _ hgs [] [] ⟨"repo", false, k⟩ rfl
+    (by simp) (by simpa [RGuard.val] using hg)
+    (by intro hk; simp only at hk; subst hk; simpa [RGuard.val] using hstar hgk)
+  simpa [hgk] using this
+
+/-- `Select(r, allow)` on `MountBlob`: the SOURCE repository is checked first (for
+reading), the target second (for writing). Hence a refused source is answered by
+NAME_UNKNOWN whatever `allow` says of the target — also when both are refused —
+and DENIED is the answer exactly when the source is admitted and the target
+refused. In both cases the wrapped registry is not called. -/
+theorem select_wrapper_mount (allow : Bytes → Bool) (backend : Call → ρ) (env : Env) :
+    ∃ r ∈ table, r.method = "MountBlob" ∧
+      (allow (env "fromRepo") = false →
+        call (selectPolicy allow) backend env r = ⟨.rejected "NAME_UNKNOWN", []⟩) ∧
+      (allow (env "fromRepo") = true → allow (env "toRepo") = false →
+        call (selectPolicy allow) backend env r = ⟨.rejected "DENIED", []⟩) := by
+  have hfind : ∃ r ∈ table, r.method = "MountBlob" ∧ RowOk r = true ∧ r.params = ["fromRepo", "toRepo", "digest"] := by decide
+  obtain ⟨r, hr, hm, hok, hp⟩ := hfind
+  refine ⟨r, hr, hm, ?_, ?_⟩
+  all_goals
+    have hips : ifaceParamNames r.method = some ["fromRepo", "toRepo", "digest"] := by rw [hm]; decide
+    have hgs : specGuards r.method ["fromRepo", "toRepo", "digest"] r.params =
+        some [⟨"fromRepo", false, .read⟩, ⟨"toRepo", false, .write⟩] := by rw [hm, hp]; decide
+    have hne : r.method ≠ "Repositories" := by rw [hm]; decide
+  · intro hf
+    have := select_wrapper_error_kinds r hok hne allow backend env _ hips _ hgs
+      [] [⟨"toRepo", false, .write⟩] ⟨"fromRepo", false, .read⟩ rfl (by simp)
+      (by simpa [RGuard.val] using hf) (by simp)
+    simpa using this
+  · intro hf ht
+    have := select_wrapper_error_kinds r hok hne allow backend env _ hips _ hgs
+      [⟨"fromRepo", false, .read⟩] [] ⟨"toRepo", false, .write⟩ rfl
+      (by simpa [RGuard.val] using hf) (by simpa [RGuard.val] using ht) (by simp)
+    simpa using this
+
+/-- Why `select_wrapper_error_kinds` excludes "*" for list guards: `Select` never
+refuses `Tags` of the pseudo-name "*", even when `allow` admits nothing — the call
+reaches the wrapped registry. -/
+theorem select_wrapper_star_listed (backend : Call → ρ) (env : Env) (henv : env "repo" = strBytes "*") :
+    ∃ r ∈ table, r.method = "Tags" ∧
+      call (selectPolicy fun _ => false) backend env r =
+        ⟨.returned (backend ⟨"Tags", r.params.map env⟩), [⟨"Tags", r.params.map env⟩]⟩ := by
+  have hfind : ∃ r ∈ table, r.method = "Tags" ∧ RowOk r = true ∧ r.params = ["repo", "startAfter"] := by decide
+  obtain ⟨r, hr, hm, hok, hp⟩ := hfind
+  refine ⟨r, hr, hm, ?_⟩
+  have hips : ifaceParamNames r.method = some ["repo", "startAfter"] := by rw [hm]; decide
+  have hgs : specGuards r.method ["repo", "startAfter"] r.params = some [⟨"repo", false, .list⟩] := by
+    rw [hm, hp]; decide
+  have hne : r.method ≠ "Repositories" := by rw [hm]; decide
+  have := allowed_transparent r hok hne (selectPolicy fun _ => false) backend env _ hips _ hgs (by
+    intro g hg
+    simp only [List.mem_singleton] at hg
+    subst hg
+    rw [select_error_kinds]
+    have : strBytes "*" = [42] := by decide
+    simp [RGuard.val, henv, this])
+  rw [hm] at this
+  exact this
+
+/-- The hypotheses of `select_wrapper_error_kinds` on a concrete instance: the
+`MountBlob` guards split at the target, `allow` admits only "a", the mount is from
+"a" to "b". -/
+example :
+    let allow : Bytes → Bool := fun n => n == [97]
+    let env : Env := fun p => if p = "fromRepo" then [97] else [98]
+    let pre : List RGuard := [⟨"fromRepo", false, .read⟩]
+    let g : RGuard := ⟨"toRepo", false, .write⟩
+    (∃ r ∈ table, RowOk r = true ∧ r.method ≠ "Repositories" ∧
+      ifaceParamNames r.method = some ["fromRepo", "toRepo", "digest"] ∧
+      specGuards r.method ["fromRepo", "toRepo", "digest"] r.params = some (pre ++ g :: [])) ∧
+    (∀ g' ∈ pre, allow (g'.val env) = true) ∧ allow (g.val env) = false ∧
+    (g.kind = .list → g.val env ≠ strBytes "*") := by decide
+
+/-- ... and of `select_wrapper_single` (a `Tags` row, a refused repository "b"),
+with the outcomes of the three wrapper theorems evaluated on the table. -/
+example :
+    let allow : Bytes → Bool := fun n => n == [97]
+    let env : Env := fun p => if p = "fromRepo" then [97] else [98]
+    let backend : Call → Nat := fun _ => 0
+    (∃ r ∈ table, r.method = "Tags" ∧ allow (env "repo") = false ∧
+      (groupKind r.method = some .list → env "repo" ≠ strBytes "*") ∧
+      call (selectPolicy allow) backend env r = ⟨.rejected "NAME_UNKNOWN", []⟩) ∧
+    (∃ r ∈ table, r.method = "PushBlob" ∧
+      call (selectPolicy allow) backend env r = ⟨.rejected "DENIED", []⟩) ∧
+    (∃ r ∈ table, r.method = "MountBlob" ∧
+      call (selectPolicy allow) backend env r = ⟨.rejected "DENIED", []⟩ ∧
+      call (selectPolicy allow) backend (fun _ => [98]) r = ⟨.rejected "NAME_UNKNOWN", []⟩) := by decide
+
 /-! ### Non-vacuity -/
 
 /-- A concrete row, policy and arguments meeting the hypotheses of
